@@ -383,9 +383,9 @@ def oracle_c05_specials(ctx: Ctx):
                 ctx.finding(f"special-raise|{na}", f"is_any()/is_empty() raised {type(e).__name__}", {"a": na}, None, repr(e))
             for nb, b in grp.items():
                 try:
-                    if (a == b) is not True or hash(a) != hash(b):
-                        ctx.finding(f"special-eq|{gname}|{type(a).__name__}|{type(b).__name__}", "two spellings of the same set do not compare equal (or hash differently)",
-                                    {"a": na, "b": nb}, expected=True, observed={"eq": a == b, "hash_equal": hash(a) == hash(b)})
+                    if (a == b) is not True:      # (hash agreement is C13's claim and is checked there)
+                        ctx.finding(f"special-eq|{gname}|{type(a).__name__}|{type(b).__name__}", "two spellings of the same set do not compare equal",
+                                    {"a": na, "b": nb}, expected=True, observed={"eq": a == b})
                 except Exception as e:  # noqa: BLE001
                     ctx.finding(f"special-raise|{na}|{nb}", f"== / hash raised {type(e).__name__}", {"a": na, "b": nb}, None, repr(e))
     for na, a in anys.items():
@@ -501,9 +501,13 @@ def oracle_c13_spec(ctx: Ctx, pairs):
                 # interchangeable as operands
                 c = rng.choice(pairs)[1]
                 for op, f in (("and", lambda x: c & x), ("or", lambda x: c | x), ("rand", lambda x: x & c), ("ror", lambda x: x | c)):
-                    if not (f(a) == f(b)):
-                        ctx.finding(f"congr|{op}|{show(a)}|{show(c)}", "equal operands give unequal results",
-                                    {"x": show(a), "y": show(b), "other": show(c), "op": op}, "equal", [show(f(a)), show(f(b))])
+                    ra, rb = f(a), f(b)
+                    # "the same meaning": the same members at probes realising every position between the bounds involved (not == of
+                    # the returned objects, which would also demand C05's canonical shapes)
+                    probes = _probes_of(a, c)
+                    if any(sg.smem(v, ra) != sg.smem(v, rb) for v in probes):
+                        ctx.finding(f"congr|{op}|{show(a)}|{show(c)}", "equal operands give results with different members",
+                                    {"x": show(a), "y": show(b), "other": show(c), "op": op}, "the same members", [show(ra), show(rb)])
         except Exception as e:  # noqa: BLE001
             ctx.finding(f"raise|{show(a)}|{show(b)}", f"==/hash raised {type(e).__name__}", {"x": show(a), "y": show(b)}, None, repr(e))
     # transitivity on respelled triples
